@@ -230,7 +230,8 @@ class VirtualFS:
             if isinstance(obj, SimFile):
                 sf = obj
             else:
-                sf = SimFile(obj, name=p, **self.faults.get(p, {}), **self.simfile_kw)
+                faults = {os.path.normpath(k): v for k, v in self.faults.items()}.get(p, {})
+                sf = SimFile(obj, name=p, **faults, **self.simfile_kw)
             self.simfiles[p] = sf
             return sf
         raw = obj._data if isinstance(obj, SimFile) else obj
